@@ -351,6 +351,8 @@ func checkC08(p *Prog, r *Report) {
 	ruleComparatorsSymmetric(p, r, map[string]bool{"cisco": true, "asa": true, "ios": true}, 5)
 	ruleFreshCounters(p, r, "R08.f", map[string]bool{"cisco": true, "panos": true, "nsx": true, "linux": true}, 1)
 	ruleMustCalls(p, r, "R-PH", "C08")
+	ruleBufferReuse(p, r, "R-REUSE", map[string]bool{"cisco": true, "asa": true, "ios": true, "nxos": true})
+	ruleMemo(p, r, "R-MEMO", "C08", map[string]bool{"cisco": true, "asa": true, "ios": true, "nxos": true}, 7)
 	ruleRewriteDiscipline(p, r, "R-FLAG", "C08", map[string]bool{"cisco": true}, 20)
 	ruleCutsetMisuse(p, r, map[string]bool{"cisco": true, "asa": true, "ios": true, "panos": true, "nsx": true})
 	r.rule("R-M", "Mark discipline (PAN-OS, NSX): the marks needed / nameOnDevice decide which objects are transferred before the rules that reference them and under which name a rule refers to a group; every store into such a mark lies at a function+site whose controlling conditions are audited rows of tables/guards.tsv (compared by R08.g).")
@@ -871,6 +873,29 @@ func ruleJoinedTransactions(p *Prog, r *Report) {
 		}
 		r.add("R14.j", "move-joined|"+name, p.pos(cl.Pos()), "a moved ACL line is sent as `no <line>\\n<line at new position>` in one change element", ok,
 			"delete and add of a moved line are separate commands: between them the line is missing (lock-out) or duplicated")
+		// every add of the closure is joined: no path from a call of addACL to the return avoids the join
+		isJoin := func(in ssa.Instruction) bool {
+			st, isSt := in.(*ssa.Store)
+			if !isSt {
+				return false
+			}
+			_, isIdx := st.Addr.(*ssa.IndexAddr)
+			return isIdx && hasNLConcat(st.Val)
+		}
+		nAdd := 0
+		for _, cs := range callsOf(cl) {
+			for _, cal := range calleesOfSite(p, cs) {
+				if cal.Parent() != par || closureName(cal) != "addACL" {
+					continue
+				}
+				nAdd++
+				r.add("R14.j", fmt.Sprintf("move-add-joined|%s|%d", name, nAdd), p.ipos(cs.In), "the line added by moveACL is joined with its delete before the closure returns", !reachesExitAvoiding(cs.In, isJoin),
+					"a path from this addACL to the return does not pass the join: delete and add of the same line go out as two commands, between them the line is missing")
+			}
+		}
+		if nAdd == 0 {
+			r.fail("R14.j", "move-add-joined|"+name, p.pos(cl.Pos()), "moveACL calls addACL", "no call of the addACL closure found in moveACL")
+		}
 	}
 	if fn := p.Fn("(*cisco.State).diffRoutes"); fn != nil {
 		okJ, okNeeded := false, false
@@ -1234,4 +1259,39 @@ func ruleJoinedSentAsOnePacket(p *Prog, r *Report) {
 			"a joined delete+add is split over several packets: "+bad)
 	}
 	r.floor("R14.w", "senders that handle joined commands", n, 2)
+}
+
+// reachesExitAvoiding: some path from the instruction after `from` to a return of
+// the function passes no instruction for which stop holds.
+func reachesExitAvoiding(from ssa.Instruction, stop func(ssa.Instruction) bool) bool {
+	b := from.Block()
+	start := -1
+	for i, in := range b.Instrs {
+		if in == from {
+			start = i + 1
+		}
+	}
+	seen := map[*ssa.BasicBlock]bool{}
+	var walk func(b *ssa.BasicBlock, i int) bool
+	walk = func(b *ssa.BasicBlock, i int) bool {
+		for ; i < len(b.Instrs); i++ {
+			in := b.Instrs[i]
+			if stop(in) {
+				return false
+			}
+			if _, isRet := in.(*ssa.Return); isRet {
+				return true
+			}
+		}
+		for _, s := range b.Succs {
+			if !seen[s] {
+				seen[s] = true
+				if walk(s, 0) {
+					return true
+				}
+			}
+		}
+		return false
+	}
+	return walk(b, start)
 }
